@@ -113,6 +113,38 @@ def reload_oracle(kop_lines, kimpl_lines, report, max_reports=3):
         elif w[0] in ("reload", "handover"):
             m = re.search(r"L\[([^\]]*)\]", im)
             lens = [int(x) for x in m.group(1).split(",") if x] if m else []
+            # matching is per group: a new-generation node whose name is absent from its groups' namesake
+            # old groups inherits nothing, i.e. keeps the flags it had before the hand-over
+            if w[0] == "handover" and i > 0:
+                def alive_map(line):
+                    mm = re.search(r"A\[([^\]]*)\]", line)
+                    return dict(p.split(":") for p in mm.group(1).split(";") if p) if mm else {}
+                before, after = alive_map(kimpl_lines[i - 1]), alive_map(im)
+                olds, news = {}, []
+                for tok in w[1:]:
+                    if tok == "|":
+                        break
+                    parts = tok.split("/")
+                    ms = [] if parts[-1] == "-" else [tuple(x.split(":")) for x in parts[-1].split(",")]
+                    if parts[0] == "o":
+                        olds[parts[1]] = {nm for _, nm in ms}
+                    else:
+                        news.append((parts[2], ms))
+                matched, allnew = set(), set()
+                for gname, ms in news:
+                    for nid, nm in ms:
+                        allnew.add(nid)
+                        if gname in olds and nm in olds[gname]:
+                            matched.add(nid)
+                for nid in sorted(allnew - matched, key=int):
+                    n_checked += 1
+                    if nid in before and nid in after and any(b == "1" and a == "0" for b, a in zip(before[nid], after[nid])):
+                        if n_rep < max_reports:
+                            report(f"implementation violates `a reload hands over the last known state of the SAME group's same-named "
+                                   f"node only` at line {i + 1}: node {nid} has no namesake in the old group(s) named like its group(s) "
+                                   f"but went {before[nid]} -> {after[nid]} in ControlPlane.InheritDialerHealthFrom without any failure",
+                                   {"clause": "hand-over matching", "line": i + 1, "op": op, "impl": im})
+                        n_rep += 1
             for tok in w[1:]:
                 if tok == "|":
                     break
